@@ -167,6 +167,64 @@ def run_plan(pid, tier, plan, prefixes, need_witnesses=(), crash_is_violation=Fa
         'field contents come from a fixed menu per client id; alphabets and budgets as listed per search'])
 
 
+# ---- serial sweep: the same conversation after n-1 earlier announcements -------------------------------------------
+SWEEP_N = list(range(1, 41)) + [255, 256, 257, 4095, 4096, 4097, 65535, 65536, 65537]
+
+def serial_sweep(run, prefixes, thorough=False):
+    """The searches abstract routing serials to ranks.  This enumeration covers what that abstraction cannot see: for every n
+    of a boundary list the probe client is the n-th announcement of the daemon's life (earlier ones reuse the same id and are
+    withdrawn).  Its conversation must equal that of n = 1 up to the serial in its tag (C07), and a reply carrying the tag of
+    the previous instance of its id must be ignored (C04).  Tags are read from the daemon's own dump, not computed."""
+    b = build.build()
+    services = G['login+drone']
+    conf = e1.conf_text(os.path.join(b, 'mods-wrapped'), services=services, timeout=0, rules=rules_for(services))
+    C = '1 C 10.0.0.1 1111 10.9.9.9 6667\n'
+    import re
+    mask = lambda lines, tag: [l.replace(tag, 'TAG') for l in lines]
+    base = None
+    n_done = 0
+    with e1.Server(conf, builddir=b) as srv:
+        for n in SWEEP_N:
+            if run.out_of_time(30):
+                run.cap('serial sweep stopped before n=%d' % n)
+                break
+            hist = []
+            if n >= 3:
+                hist.append(('L', (C + '1 D\n') * (n - 2)))
+            tag_prev = None
+            if n >= 2:
+                hist += [('L', C), ('L', '1 P :+x acctA passA\n')]
+                hd, bad, _ = srv.expand(hist, [], e1.F_DUMP)
+                tag_prev = next(d['tag'] for d in hd if d['t'] == 'req' and d['id'] == 1)
+                hist.append(('L', '1 D\n'))
+            hist += [('L', C), ('L', '1 H\n'), ('L', '1 P :+x acctA passA\n')]
+            hd, bad, _ = srv.expand(hist, [], e1.F_DUMP)
+            req = [d for d in hd if d['t'] == 'req' and d['id'] == 1]
+            if len(req) != 1:
+                raise common.HarnessError('serial sweep: probe client not live after its announcement (n=%d)' % n)
+            tag = req[0]['tag']
+            good = ('L', '-1 X login.svc %s :OK acctA:7\n-1 X drone.svc %s :OK\n' % (tag, tag))
+            cands = [good]
+            if tag_prev:
+                cands.append(('L', '-1 X login.svc %s :OK stale:1\n' % tag_prev))
+                cands.append(('L', '-1 X login.svc %s :NO stale refusal\n' % tag_prev))
+            hd, bad, res = srv.expand(hist, cands, e1.F_DUMP)
+            n_done += 1
+            rec = (res[0].status, mask(res[0].out, tag))
+            if base is None:
+                base = rec
+            elif rec != base:
+                if any('C07.'.startswith(p) for p in prefixes): run.violation('C07.serial-sweep', 'the %d-th client announced since start-up gets %r for the conversation that gives the first client %r (tag %s)' % (n, rec, base, tag),
+                              {'engine': 'E1-sweep', 'conf': conf, 'n': n}, dedup='sweep07')
+            for r, what in zip(res[1:], ('OK', 'NO')):
+                if r.status != 'ok' or r.out:
+                    if any('C04.'.startswith(p) for p in prefixes): run.violation('C04.serial-sweep-stale', 'a %s reply carrying the tag %s of the departed previous instance of id 1 (the live one is %s, n=%d) produced %r (%s)' % (what, tag_prev, tag, n, r.out, r.status),
+                                  {'engine': 'E1-sweep', 'conf': conf, 'n': n}, dedup='sweep04' + what)
+    if base is None or base[0] != 'ok' or not any(l.startswith('R 1 ') for l in base[1]):
+        raise common.HarnessError('serial sweep: the baseline conversation did not end in an R verdict: %r' % (base,))
+    return {'serial_sweep_n_values': n_done, 'serial_sweep_max_n': max(SWEEP_N[:n_done]) if n_done else 0}
+
+
 # ---- replay of a recorded violation -------------------------------------------------------------------
 def replay(obj):
     r = obj['replay']
